@@ -12,7 +12,7 @@ import gen as G
 import verde as vd
 
 ID = "C11"
-TRANSLATED = "utils"       # Gen/Utils.lean (partition_by_sum) is regenerated from /repo by py2lean.py and bridged to the model in Props/C11.lean
+TRANSLATED = "cvsplit"     # Gen/Utils.lean (partition_by_sum) and Gen/CVSplit.lean (BlockKFold / BlockShuffleSplit._iter_test_indices) are regenerated from /repo and bridged to the model in Props/C11.lean
 FILES = ["verde/model_selection.py", "verde/base/base_classes.py", "verde/utils.py", "verde/coordinates.py"]
 RULE = ("exhaustive small block-occupancy vectors (<= 4 occupied blocks x <= 4 points in quick, <= 6 x <= 5 in thorough; all n_splits, shuffle and "
         "balance on/off) realised as point layouts with empty blocks, seeded larger uneven layouts, BlockShuffleSplit over test sizes / balancing / seeds "
